@@ -194,7 +194,7 @@ func Concretise(g GenCase, rng *rand.Rand) (Case, bool) {
 				st.Shape = pick(rng, "inactive", "wrongiss", "noprofile")
 			default:
 				// "noprofile": credentials the remote system knows, but no subject can be built from what it says
-				st.Shape = pick(rng, "401", "401", "noprofile")
+				st.Shape = pick(rng, "401", "400", "403", "422", "noprofile")
 			}
 		}
 
